@@ -4,6 +4,7 @@ import (
 	"bytes"
 	"fmt"
 	"strings"
+	"time"
 
 	"verif/mc/drive"
 	"verif/mc/engine"
@@ -25,6 +26,9 @@ type c19Case struct {
 	Sub     bool `json:"sub"`           // subordinate (else root)
 	ExtSet  int  `json:"extSet"`        // 0 none, 1 SKI+AKI hash, 2 all kinds
 	CSR     bool `json:"csr,omitempty"` // the (subordinate) entity has only a certificate request, no private key
+	// Edit: 0 = a single run; 1..6 = first a run with the values given here, then the value of the Edit-th key
+	// (1 version .. 6 key bits) is edited to the next value of its alphabet (7 = the key is removed, 8 = the whole block), then a default run
+	Edit int `json:"edit,omitempty"`
 }
 
 var c19Versions = []int64{0, 1, 2, 3, 255}
@@ -34,7 +38,79 @@ func c19Bytes() []*refcfg.Raw {
 	return []*refcfg.Raw{refcfg.Empty(), refcfg.Null(), refcfg.Bin([]byte{1, 2, 3, 4}), refcfg.Bin(bytes.Repeat([]byte{0x42, 0x99}, 50))}
 }
 
+// c19Edited: the manipulation values are edited after a first run; the next default run must issue the
+// certificate with the values now in the file.
+func c19Edited(x *engine.Ctx, c *c19Case) {
+	pre := func(w *simfs.World) {
+		w.Put("ent.pem", FixtureKeyPEM("RSA-1024-0"))
+		if c.Sub {
+			w.Put("ca.pem", FixtureKeyPEM("RSA-2048-0"))
+		}
+		if c.ExtSet == 1 {
+			w.Put("kid.pem", FixtureKeyPEM("P-224-0"))
+		}
+	}
+	d0, _ := c19Dir(c, true)
+	g := Generate(d0, pre, drive.Default)
+	x.Nontrivial(fmt.Sprintf("edited %+v", *c))
+	if !g.Res.OK() {
+		x.Violation("C19/edited/first-run-failed", fmt.Sprintf("%v %s", g.Res.Err(), g.Res.Panic))
+		return
+	}
+	c2 := *c
+	dims := []int{len(c19Versions), len(c19OIDs), 4, len(c19OIDs), len(c19OIDs), 4}
+	idx := []*int{&c2.Version, &c2.Outer, &c2.SigVal, &c2.TbsSig, &c2.PkAlg, &c2.PkBits}
+	what := ""
+	switch {
+	case c.Edit >= 1 && c.Edit <= 6:
+		*idx[c.Edit-1] = (*idx[c.Edit-1] + 1) % dims[c.Edit-1]
+		what = fmt.Sprintf("value of key #%d changed", c.Edit)
+	case c.Edit == 7:
+		c2.PkBits = -1
+		what = "key-bits entry removed"
+	case c.Edit == 8:
+		c2.Version, c2.Outer, c2.SigVal, c2.TbsSig, c2.PkAlg, c2.PkBits = -1, -1, -1, -1, -1, -1
+		what = "whole block removed"
+	}
+	d1, ent := c19Dir(&c2, c.Edit != 8)
+	g.W.Put(ent.Path, RenderCfg(ent.Path, ent.Tree()))
+	t0 := time.Now().Unix()
+	res := drive.Run(g.W, drive.Default, nil)
+	g2 := &GenResult{W: g.W, Res: res, RunStart: t0, RunEnd: time.Now().Unix()}
+	feat := map[bool]string{true: "subordinate", false: "root"}[c.Sub]
+	if !res.OK() {
+		x.Violation("C19/edited/run-failed ["+feat+"]", fmt.Sprintf("%s: %v %s", what, res.Err(), res.Panic))
+		return
+	}
+	for _, alias := range []string{"ent", "kid"} {
+		if d1.Cert(alias) == nil {
+			continue
+		}
+		diffs, _, err := g2.CompareEntity(d1, alias, "")
+		if err != nil {
+			x.Violation("C19/edited/compare ["+feat+"]", err.Error())
+			return
+		}
+		for _, df := range diffs {
+			x.Violation("C19/edited/"+strings.TrimPrefix(df.Class, df.Owner+"/")+" ["+feat+"]", fmt.Sprintf("%s, then a default run; %s: %s", what, alias, short(df.Detail, 300)))
+		}
+	}
+	x.Outcome("edited manipulations applied")
+}
+
 func c19Enumerate(tier string, yield func(any)) {
+	// a block with all six keys, one of them edited (or removed) after a first run
+	for edit := 1; edit <= 8; edit++ {
+		for _, sub := range []bool{false, true} {
+			yield(&c19Case{Version: 1, Outer: 0, SigVal: 2, TbsSig: 0, PkAlg: 0, PkBits: 2, Sub: sub, ExtSet: 1, Edit: edit})
+			// ... and the same with only the edited key present
+			if edit <= 6 {
+				v := []int{-1, -1, -1, -1, -1, -1}
+				v[edit-1] = 0
+				yield(&c19Case{Version: v[0], Outer: v[1], SigVal: v[2], TbsSig: v[3], PkAlg: v[4], PkBits: v[5], Sub: sub, ExtSet: 1, Edit: edit})
+			}
+		}
+	}
 	dims := []int{len(c19Versions), len(c19OIDs), 4, len(c19OIDs), len(c19OIDs), 4}
 	emit := func(v []int) {
 		for _, sub := range []bool{false, true} {
@@ -166,6 +242,10 @@ func c19Dir(c *c19Case, withManip bool) (*Dir, *refcfg.CertCfg) {
 
 func c19Exec(x *engine.Ctx, cc any) {
 	c := cc.(*c19Case)
+	if c.Edit > 0 {
+		c19Edited(x, c)
+		return
+	}
 	pre := func(w *simfs.World) {
 		if c.CSR {
 			k, _ := refx509.ParsePKCS8(FixtureKeyDER("RSA-1024-0"))
@@ -315,7 +395,7 @@ func init() {
 	register(&engine.Check{
 		ID:          "C19",
 		Level:       "exploration",
-		Rule:        "all 64 subsets of the six manipulation keys (one value each), every single key with every value (version {0,1,2,3,255}; OIDs {1.2.3.4, sha256WithRSA, ecdsa-with-SHA256, 2.999.1}; byte fields {!empty,!null,4 B,100 B}), value products for pairs (quick, half) / for all subsets of size <=4 (thorough), each x {root, subordinate, subordinate whose key material is a certificate request} x extension set {none, SKI+AKI hash, all kinds}; with the SKI+AKI set the manipulated entity also issues a certificate with hashed key ids, compared with the reference as well. Existing RSA keys, configured serial and absolute dates make the certificate deterministic: it is compared (1) field by field with the reference translation, (2) differentially with the same configuration without the block (every other TBS field byte-identical; outer-only manipulations leave TBS and RSA signature identical), (3) signature verified over the actual TBS bytes with the real issuer key. non-trivial = distinct case",
+		Rule:        "all 64 subsets of the six manipulation keys (one value each), every single key with every value (version {0,1,2,3,255}; OIDs {1.2.3.4, sha256WithRSA, ecdsa-with-SHA256, 2.999.1}; byte fields {!empty,!null,4 B,100 B}), value products for pairs (quick, half) / for all subsets of size <=4 (thorough), each x {root, subordinate, subordinate whose key material is a certificate request} x extension set {none, SKI+AKI hash, all kinds}; with the SKI+AKI set the manipulated entity also issues a certificate with hashed key ids, compared with the reference as well. Plus 28 histories in which a value of the block is edited (or the key bits entry / the whole block removed) after a first run and a default run follows: the certificate and the one it issues carry the values now in the file. Existing RSA keys, configured serial and absolute dates make the certificate deterministic: it is compared (1) field by field with the reference translation, (2) differentially with the same configuration without the block (every other TBS field byte-identical; outer-only manipulations leave TBS and RSA signature identical), (3) signature verified over the actual TBS bytes with the real issuer key. non-trivial = distinct case",
 		Bound:       map[string]string{"subset size with full value product": "quick 2 (half), thorough 4"},
 		Assumptions: []string{"RSA PKCS#1 v1.5 signing is deterministic"},
 		Budget:      budgets(quickBudget, thoroughBudget),
